@@ -21,6 +21,8 @@ import GherkinVerif.Spec.LayoutChecks3
 import GherkinVerif.Spec.LayoutChecks4
 import GherkinVerif.Spec.LayoutChecks5
 import GherkinVerif.Spec.RecoverChecks
+import GherkinVerif.Spec.RecoverChecks2
+import GherkinVerif.Spec.Render
 open GV
 
 namespace Driver
@@ -65,6 +67,17 @@ def outcomeFJ (o : OutcomeF) (ctx : CtxF) : J :=
                  ("builds", .arr (ctx.builds.map fun t => .str (formatToken t))),
                  ("buildLines", .arr (ctx.builds.map fun t => .num t.lineNo)),
                  ("reads", .arr (ctx.reads.map J.num)), ("unexpected", .arr (ctx.unexpected.map J.num))])
+
+/-- fields terminated by code point 0 (an unterminated last field is dropped) -/
+def split0Aux : List Nat → List Nat → List (List Nat)
+  | [], _ => []
+  | c :: cs, acc => if c == 0 then acc.reverse :: split0Aux cs [] else split0Aux cs (c :: acc)
+
+def split0 (cs : List Nat) : List (List Nat) := split0Aux cs []
+
+def pairUp : List (List Nat) → List (List Nat × List Nat)
+  | a :: b :: r => (a, b) :: pairUp r
+  | _ => []
 
 def handle (op : String) (as : List (List Nat)) : J :=
   match op with
@@ -114,6 +127,19 @@ def handle (op : String) (as : List (List Nat)) : J :=
               ((List.range (n + 1)).filter fun k => Spec.commentLineOk2B D T (flag as 0) μ 0 src k c).map J.num)),
             -- a sixth argument: a variant in which doc strings move as blocks (Props/C16Doc7.lean)
             ("indent3", .bool (!(arg as 5).isEmpty && Spec.indentBlockOkB D T (flag as 0) μ 0 (arg as 5) src))]
+  | "render" =>
+    -- dialect name | feature tags (0-terminated) | feature keyword | feature name | then per scenario four arguments:
+    -- tags (0-terminated) | keyword | name | steps (kw 0 text 0 …)  — Spec/Render.lean, Props/C03Roundtrip.lean:
+    -- the rendered text, whether the model is well formed for the dialect, and the AST `C03_roundtrip` says the parse returns
+    match MState.init D (arg as 0), findDialect D (arg as 0) with
+    | some _, some d =>
+      let rec scs : List (List Nat) → List (List Str × Str × Str × List (Str × Str))
+        | t :: k :: n :: st :: rest => (split0 t, k, n, pairUp (split0 st)) :: scs rest
+        | _ => []
+      let m := Spec.MFeature.ofLists (split0 (arg as 1)) (arg as 2) (arg as 3) (scs (as.drop 4))
+      .obj [("wf", .bool (Spec.WF d m)), ("text", .str (Spec.render m)),
+            ("expected", (Spec.expectedDoc d (arg as 0) m 0).toJ), ("idsAfter", .num (Spec.idsAfter m 0))]
+    | _, _ => .obj [("crash", .str (lit "no such dialect"))]
   | "recoverok" =>
     -- default dialect | src' : the 0-based positions k such that line k+1 of src' is an unexpected line to which
     -- `C14_unexpected_line_check` applies (Spec/RecoverChecks.lean: unexpectedLineOkB), collecting mode
@@ -122,7 +148,9 @@ def handle (op : String) (as : List (List Nat)) : J :=
     | some μ =>
       let src' := arg as 1
       let n := (splitLines src').length
-      .obj [("skippable", .arr (((List.range n).filter fun k => Spec.unexpectedLineOkB D T μ 0 src' k).map J.num))]
+      .obj [("skippable", .arr (((List.range n).filter fun k => Spec.unexpectedLineOk2B D T μ 0 src' k).map J.num)),
+            ("skippable1", .arr (((List.range n).filter fun k => Spec.unexpectedLineOkB D T μ 0 src' k).map J.num)),
+            ("stop", .arr (((List.range n).filter fun k => Spec.unexpectedLineStopB D T μ 0 src' k).map J.num))]
   | "textaccepts" =>
     -- default dialect | src : text-level acceptor (Spec/TextLevel.lean) and the intrinsic kinds along the run
     match MState.init D (arg as 0) with
